@@ -171,6 +171,13 @@ class SymSeq:
         return SymSeq(self.n + 1, cols, self.types, self.arity)
 
 
+class DiscardYields:
+    """Generator output that is only observed through per-yield checks (objects are not stored)."""
+
+    def __init__(self):
+        self.count = 0
+
+
 class ModRef:
     """Reference to an external (non-repo) module or a dotted attribute of it."""
 
@@ -509,6 +516,8 @@ class Engine:
                 return z3.Length(v.z) > 0
         if isinstance(v, SymSeq):
             return v.n > 0
+        if hasattr(v, 'vc_truth'):
+            return v.vc_truth()
         if isinstance(v, Obj):
             if v.info is not None and self.find_method(v, '__len__') is not None:
                 return self.truth(self.call_method(v, '__len__', [], {}))
@@ -1538,7 +1547,9 @@ class Engine:
     def emit_yield(self, val, fr):
         if fr.is_top and self.on_yield is not None:
             self.on_yield(self, val, fr)
-        if isinstance(fr.yields, SymSeq):
+        if isinstance(fr.yields, DiscardYields):
+            fr.yields.count += 1
+        elif isinstance(fr.yields, SymSeq):
             fr.yields = fr.yields.append(val)
         else:
             fr.yields.append(val)
@@ -1928,10 +1939,20 @@ class Engine:
         names = set()
         mutated = set()
 
-        def base_name(n):
+        attr_muts = set()
+
+        def base_name(n, record=True):
+            first_attr = None
             while isinstance(n, (ast.Subscript, ast.Attribute)):
+                if isinstance(n, ast.Attribute):
+                    first_attr = n.attr
                 n = n.value
-            return n.id if isinstance(n, ast.Name) else None
+            if isinstance(n, ast.Name):
+                if first_attr is not None and record:
+                    attr_muts.add((n.id, first_attr))
+                    return None
+                return n.id
+            return None
 
         class V(ast.NodeVisitor):
             def visit_Name(s, n):
@@ -1957,6 +1978,8 @@ class Engine:
                     b = base_name(n.func.value)
                     if b:
                         mutated.add(b)
+                elif isinstance(n.func, ast.Attribute) and isinstance(n.func.value, ast.Name) and n.func.value.id == 'self':
+                    self_calls.add(n.func.attr)
                 s.generic_visit(n)
 
             def visit_FunctionDef(s, n):
@@ -1964,56 +1987,150 @@ class Engine:
 
             def visit_Lambda(s, n):
                 pass
+        self_calls = set()
         for st in stmts:
             V().visit(st)
         self._last_mutated = mutated - names
+        self._last_attr_muts = attr_muts
+        self._last_self_calls = self_calls
         return names
 
+    def self_method_mutations(self, fr, method_names, depth=0, seen=None):
+        """attributes of self stored/mutated by methods of self called in a loop body (transitively)."""
+        seen = seen if seen is not None else set()
+        out = set()
+        selfobj = fr.env.get('self')
+        if not isinstance(selfobj, Obj) or selfobj.info is None or depth > 4:
+            return out
+        for m in method_names:
+            if m in seen:
+                continue
+            seen.add(m)
+            f = self.loader.class_member(selfobj.info, m, self)
+            if not isinstance(f, FuncRef):
+                continue
+            saved = (self._last_mutated, self._last_attr_muts, self._last_self_calls)
+            self.assigned_names(f.node.body)
+            out |= {(b, a) for (b, a) in self._last_attr_muts if b == 'self'}
+            calls = set(self._last_self_calls)
+            self._last_mutated, self._last_attr_muts, self._last_self_calls = saved
+            out |= self.self_method_mutations(fr, calls, depth + 1, seen)
+        return out
+
     def loop_entry(self, spec, ordinal, fr, node, seq):
-        """Check invariant at entry, havoc, assume invariant."""
+        """Inductive loop: snapshot, check invariant at entry, havoc everything the body may change
+        (rebound names, containers mutated in place, attributes of objects - also through methods of
+        self called in the body), assume the invariant for an arbitrary iteration k."""
         kname = spec.k
         fr.env[kname] = 0
-        mods = self.assigned_names(node.body + ([ast.Assign(targets=[node.target], value=ast.Constant(0))] if isinstance(node, ast.For) else []))
+        target_stmt = [ast.Assign(targets=[node.target], value=ast.Constant(0))] if isinstance(node, ast.For) else []
+        mods = self.assigned_names(node.body + target_stmt)
         mods |= set(spec.extra_havoc)
-        for name in sorted(mods):
-            if name in fr.env:
-                fr.env['entry%d!%s' % (ordinal, name)] = fr.env[name]
+        mutated = set(self._last_mutated)
+        attr_muts = set(self._last_attr_muts) | self.self_method_mutations(fr, set(self._last_self_calls))
+
+        def snap(v):
+            return v.vc_snapshot() if hasattr(v, 'vc_snapshot') else v
+
+        def snapshot_all(prefix):
+            for name, v in list(fr.env.items()):
+                if '!' in name:
+                    continue
+                if hasattr(v, 'vc_snapshot') or name in mods:
+                    fr.env['%s%d!%s' % (prefix, ordinal, name)] = snap(v)
+                if isinstance(v, Obj) and not getattr(v, 'vc_immutable', False):
+                    for a, av in v.attrs.items():
+                        if hasattr(av, 'vc_snapshot') or (name, a) in attr_muts:
+                            fr.env['%s%d!%s.%s' % (prefix, ordinal, name, a)] = snap(av)
+
+        # ---- convert declared concrete containers into symbolic ones (before snapshots)
+        for name in sorted(mutated):
+            cur = self.lookup_or_missing(name, fr)
+            t = spec.types.get(name)
+            if isinstance(t, tuple) and t and t[0] == 'symlist' and isinstance(cur, list):
+                from .symlist import SymList
+                self.rebind(fr, name, SymList.from_concrete(cur, t[1], t[2] if len(t) > 2 else None, name))
+            elif isinstance(t, tuple) and t and t[0] == 'symdict' and isinstance(cur, dict):
+                from .symdict import SymDict
+                if len(cur):
+                    raise Unsupported('conversion of a non-empty concrete dict to a symbolic dict')
+                self.rebind(fr, name, SymDict.empty(t[1], t[2], name=name))
+        for b, a in sorted(attr_muts):
+            obj = self.lookup_or_missing(b, fr)
+            t = spec.types.get('%s.%s' % (b, a))
+            if isinstance(obj, Obj) and isinstance(t, tuple) and t and t[0] == 'symlist' and isinstance(obj.attrs.get(a), list):
+                from .symlist import SymList
+                obj.attrs[a] = SymList.from_concrete(obj.attrs[a], t[1], t[2] if len(t) > 2 else None, '%s.%s' % (b, a))
+
+        snapshot_all('entry')
         for iname, itext in spec.inv:
             g = self.spec_eval(itext, fr)
             self.check('inv.init/loop%d/%s' % (ordinal, iname), g, kind='inv.init')
-        mutated = set(self._last_mutated)
+
+        # ---- havoc rebound names
         for name in sorted(mods):
             cur = fr.env.get(name, _MISSING)
             t = spec.types.get(name)
             if cur is _MISSING and t is None:
                 continue   # first assigned inside the loop and not live after: leave unbound
             fr.env[name] = self.havoc_like(cur, t, name)
+
+        # ---- havoc containers mutated in place
+        def havoc_container(cur, label, t):
+            if t == 'frame':
+                return True
+            if hasattr(cur, 'vc_havoc_inplace'):
+                cur.vc_havoc_inplace(self, label)
+                return True
+            if isinstance(cur, dict) and cur and all(hasattr(v, 'vc_havoc_inplace') for v in cur.values()):
+                for kk, v in cur.items():
+                    v.vc_havoc_inplace(self, '%s[%s]' % (label, kk))
+                return True
+            return False
+
         for name in sorted(mutated):
             cur = self.lookup_or_missing(name, fr)
             if cur is _MISSING:
                 continue
-            if hasattr(cur, 'vc_havoc'):
-                fr.env['entry%d!%s' % (ordinal, name)] = cur.vc_snapshot() if hasattr(cur, 'vc_snapshot') else cur
-                new = cur.vc_havoc(self, name)
-                if hasattr(cur, 'store') and hasattr(new, 'store'):
-                    cur.store = new.store       # in-place: aliases of the object see the havocked state
-                else:
-                    fr.env[name] = new
-            elif isinstance(cur, (list, dict, set)) or (isinstance(cur, Obj) and name != 'self' and not getattr(cur, 'vc_immutable', False)):
-                t = spec.types.get(name)
-                if t == 'frame':
+            if havoc_container(cur, name, spec.types.get(name)):
+                continue
+            if isinstance(cur, (list, dict, set)) or (isinstance(cur, Obj) and not getattr(cur, 'vc_immutable', False)
+                                                       and cur.cls not in self.stubs):
+                raise Unsupported('inductive loop mutates %r (a concrete %s) - declare a symbolic container in LoopSpec.types'
+                                  % (name, pytype(cur)))
+        for b, a in sorted(attr_muts):
+            obj = self.lookup_or_missing(b, fr)
+            if not isinstance(obj, Obj):
+                if obj is _MISSING or obj is None or isinstance(obj, (Sym, int, str)) or hasattr(obj, 'vc_havoc_inplace'):
                     continue
-                if isinstance(t, tuple) and t and t[0] == 'symdict' and isinstance(cur, dict):
-                    from .symdict import SymDict
-                    fr.env['entry%d!%s' % (ordinal, name)] = dict(cur)
-                    self.rebind(fr, name, SymDict(t[1], t[2], name=name))
-                    continue     # contract asserts: mutation does not escape the iteration (per-iteration temp)
-                raise Unsupported('inductive loop mutates %r (a concrete %s) - needs a symbolic container' % (name, pytype(cur)))
+                raise Unsupported('inductive loop mutates %s.%s of a %s' % (b, a, pytype(obj)))
+            if getattr(obj, 'vc_immutable', False):
+                continue
+            key = '%s.%s' % (b, a)
+            cur = obj.attrs.get(a, _MISSING)
+            t = spec.types.get(key)
+            if cur is _MISSING:
+                if t is None or t == 'frame':
+                    continue
+                obj.attrs[a] = self.havoc_like(None, t, key)
+                continue
+            if havoc_container(cur, key, t):
+                continue
+            if isinstance(cur, (list, dict, set)) and t is None:
+                raise Unsupported('inductive loop mutates %s (a concrete %s) - declare LoopSpec.types[%r]' % (key, pytype(cur), key))
+            if isinstance(cur, (Obj, FuncRef, ClassRef, ModRef, Builtin, BoundMethod)) or cur is None and t is None:
+                if t is None:
+                    raise Unsupported('inductive loop rebinds %s (an object/None) - declare LoopSpec.types[%r]' % (key, key))
+            obj.attrs[a] = self.havoc_like(cur, t, key)
+
         if fr.yields is not None and self.contains_yield(node.body):
-            if not isinstance(fr.yields, SymSeq):
+            if isinstance(fr.yields, DiscardYields):
+                pass
+            elif not isinstance(fr.yields, SymSeq):
                 raise Unsupported('generator with inductive loop must use a SymSeq output (declare yields=...)')
-            y = fr.yields
-            fr.yields = SymSeq.fresh(y.types, y.arity, 'Y')
+            else:
+                y = fr.yields
+                fr.yields = SymSeq.fresh(y.types, y.arity, 'Y')
         kk = fresh(INT, kname)
         fr.env[kname] = kk
         self.assume(kk.z >= 0)
@@ -2025,12 +2142,9 @@ class Engine:
             self.assume(self.ztruth(self.spec_eval(ftext, fr)))
         for hname, htext in spec.hints.items():
             self.check('hint/loop%d/%s' % (ordinal, hname), self.spec_eval(htext, fr), kind='hint')
-        if fr.yields is not None:
+        if fr.yields is not None and not isinstance(fr.yields, DiscardYields):
             fr.env['Y0'] = fr.yields
-        for name in sorted(mods | mutated):
-            cur = self.lookup_or_missing(name, fr)
-            if cur is not _MISSING:
-                fr.env['head%d!%s' % (ordinal, name)] = cur.vc_snapshot() if hasattr(cur, 'vc_snapshot') else cur
+        snapshot_all('head')
 
     def loop_step(self, spec, ordinal, fr, node):
         if isinstance(node, ast.While):
@@ -2235,12 +2349,12 @@ def _sf_old(eng, node, fr):
 
 def _sf_entry(eng, node, fr):
     """entry(x, n): value of local x when loop n was entered."""
-    return eng.lookup('entry%d!%s' % (node.args[1].value, node.args[0].id), fr)
+    return eng.lookup('entry%d!%s' % (node.args[1].value, ast.unparse(node.args[0])), fr)
 
 
 def _sf_head(eng, node, fr):
     """head(x, n): value of x at the head of the current iteration of loop n (after havoc)."""
-    return eng.lookup('head%d!%s' % (node.args[1].value, node.args[0].id), fr)
+    return eng.lookup('head%d!%s' % (node.args[1].value, ast.unparse(node.args[0])), fr)
 
 
 def _sf_dget(eng, node, fr):
